@@ -4,6 +4,8 @@ package tensor
 
 import (
 	"unsafe"
+
+	"gorgonia.org/tensor/internal/storage"
 )
 
 // This file is ADDED to package tensor by `go build -overlay` (it does not exist in the repository).
@@ -182,4 +184,32 @@ func VerifQuickHash(t *Dense) uint64 {
 		h = (h ^ uint64(b)) * 1099511628211
 	}
 	return h
+}
+
+// VerifHeaderPoolDup drains the scalar-header pool, counts headers that are in it more than once, and refills it.
+func VerifHeaderPoolDup() (n, dup int) {
+	var hs []*storage.Header
+	for {
+		select {
+		case h := <-headerPool:
+			hs = append(hs, h)
+			continue
+		default:
+		}
+		break
+	}
+	seen := map[*storage.Header]bool{}
+	for _, h := range hs {
+		if seen[h] {
+			dup++
+		}
+		seen[h] = true
+	}
+	for _, h := range hs {
+		select {
+		case headerPool <- h:
+		default:
+		}
+	}
+	return len(hs), dup
 }
